@@ -29,6 +29,10 @@ RULES = {
     "R9": "one coordinate system for the mapped data file: ExternalTensor maps the file from byte 0 and every position "
     "used with the mapping (np.frombuffer offset=, slices of self.raw) is the tensor's absolute file offset - or, if the "
     "mapping starts at a window base, every position in every method is taken relative to that same base",
+    "R12": "lazy-load contract of the tensor classes: where a method reads a field behind `if self.F is None: self.<loader>()` "
+    "and then relies on it (assert / use), every normal exit of the loader assigns `self.F` - or the method returns by itself, "
+    "before calling the loader, under the very condition under which the loader leaves F unset (an empty external tensor maps "
+    "nothing, so `raw` stays None and tobytes() must not slice it)",
     "R11": "byte counts round up exactly: on the tensor byte paths (tensor classes, packing helpers, adapters, tensor "
     "serialization) a byte or element count is rounded up with math.ceil of the exact product or with the integer idiom "
     "(n + d - 1) // d - an addend other than the divisor minus one (the 4-bit `+ 1` reused for 4 elements per byte) "
@@ -42,7 +46,7 @@ RULES = {
     "R6": "packing constants: masks are ((1<<K)-1) shifted by multiples of K, shifts are multiples of K below 8, "
     "strides and padding moduli are 8/K in each helper",
 }
-FLOORS = {"R1": 120, "R2": 4, "R3": 8, "R4": 1, "R5": 6, "R6": 20, "R7": 30, "R8": 4, "R9": 2, "R10": 1, "R11": 1}
+FLOORS = {"R1": 120, "R2": 4, "R3": 8, "R4": 1, "R5": 6, "R6": 20, "R7": 30, "R8": 4, "R9": 2, "R10": 1, "R11": 1, "R12": 3}
 EXPLANATION = (
     "Evaluates the enum and table literals of _enums/_core/tensor_adapters with ast only and compares them with "
     "each other; derives the sub-byte classes from _BITWIDTH_MAP and checks every storage guard, packing-helper "
@@ -766,6 +770,58 @@ def rule_r10(ctx):
     ctx.require(n >= 1, "no data_ptr() call found in tensor_adapters")
 
 
+def rule_r12(ctx):
+    from ..cfg import CFG
+
+    core = ctx.repo.modules["onnx_ir._core"]
+    n = 0
+    for k in core.classes.values():
+        for m in list(k.methods.values()) + [p["get"] for p in k.props.values() if "get" in p]:
+            if isinstance(m.node, ast.Lambda):
+                continue
+            sn = m.params[0] if m.params else "self"
+            for i in (x for x in own_nodes(m.node) if isinstance(x, ast.If)):
+                t = i.test
+                if not (isinstance(t, ast.Compare) and len(t.ops) == 1 and isinstance(t.ops[0], ast.Is) and isinstance(t.comparators[0], ast.Constant)
+                        and t.comparators[0].value is None and isinstance(t.left, ast.Attribute) and norm(t.left.value) == sn):
+                    continue
+                fld = t.left.attr
+                calls = [c for st in i.body for c in ast.walk(st) if isinstance(c, ast.Call) and isinstance(c.func, ast.Attribute)
+                         and norm(c.func.value) == sn and c.func.attr in k.methods and not c.args]
+                if len(i.body) != 1 or not calls:
+                    continue
+                loader = ctx.repo.lookup(k, calls[0].func.attr)
+                if not isinstance(loader, FuncInfo) or not any(
+                        isinstance(a, ast.Assign) and any(isinstance(tg, ast.Attribute) and tg.attr == fld and norm(tg.value) == loader.params[0] for tg in a.targets)
+                        for a in own_nodes(loader.node)):
+                    continue  # not the loader of this field
+                n += 1
+                # exits of the loader that no assignment to the field precedes, with the test they sit under
+                cfg = CFG(loader.node)
+                assigns = {cn.id for a in own_nodes(loader.node) if isinstance(a, ast.Assign) and any(
+                    isinstance(tg, ast.Attribute) and tg.attr == fld for tg in a.targets) for cn in cfg.nodes_containing(a)}
+                unset = []
+                for r in (x for x in own_nodes(loader.node) if isinstance(x, ast.Return)):
+                    rn = cfg.nodes_containing(r)
+                    if rn and cfg.path_exists_avoiding(cfg.entry, {rn[0].id}, assigns, exc=False):
+                        g = getattr(r, "_parent", None)
+                        unset.append(norm(g.test) if isinstance(g, ast.If) else "<unconditional>")
+                last = loader.node.body[-1]
+                if not isinstance(last, (ast.Return, ast.Raise)) and cfg.path_exists_avoiding(cfg.entry, {cfg.exit.id}, assigns | {
+                        cn.id for r in own_nodes(loader.node) if isinstance(r, ast.Return) for cn in cfg.nodes_containing(r)}, exc=False):
+                    unset.append("<fall through>")
+                # the reader's own early exits before the load
+                own_exits = {norm(j.test) for j in own_nodes(m.node) if isinstance(j, ast.If) and j.lineno < i.lineno and j.body
+                             and isinstance(j.body[-1], (ast.Return, ast.Raise))}
+                missing = [u for u in unset if u not in own_exits]
+                ctx.check("R12", f"{k.name}.{m.name}: `{fld}` is set by {loader.name}() on every exit the method does not handle itself", not missing, m, i,
+                          f"{k.name}.{m.name} relies on `self.{fld}` after `self.{loader.name}()`, but {loader.name} returns without assigning it when `{missing[0] if missing else ''}` "
+                          "(an empty tensor maps nothing): the method then fails its own assertion instead of answering for that tensor",
+                          how="exits of the loader not preceded by an assignment to the field (CFG) vs early exits of the reader under the same condition",
+                          construct=f"{m.name} relies on {fld} that {loader.name} may leave unset")
+    ctx.require(n >= 3, f"only {n} lazy-load sites found in the tensor classes")
+
+
 def rule_r11(ctx):
     mods = ["onnx_ir._core", "onnx_ir._type_casting", "onnx_ir.tensor_adapters", "onnx_ir.serde", "onnx_ir._enums"]
     n = 0
@@ -804,6 +860,7 @@ def rule_r11(ctx):
 
 
 def run(ctx):
+    rule_r12(ctx)
     rule_r11(ctx)
     rule_r10(ctx)
     rule_r7(ctx)
